@@ -709,7 +709,7 @@ class Runner:
                                             observed=[[n, jsonable(v)] for n, v in AC.obs][:12],
                                             exception=type(cexc).__name__ if cexc else None,
                                             path_decisions=len(pr.prefix)))
-            elif (exact and self.job.exact_floats) or bad.startswith('exception mismatch'):
+            elif (exact and self.job.exact_floats) or bad.startswith('exception mismatch') or bad.startswith('site mismatch'):
                 res.xval_bad.append(dict(job=self.job.name, why=bad, inputs=to_json(cin)))
             else:
                 res.xval_inexact += 1
@@ -727,6 +727,11 @@ class Runner:
             c1 = concretize(v1, model)
             if not _close(c1, v2):
                 return "%s: symbolic %r vs real %r" % (n1, c1, v2)
+        # both modes must state the same requirements (a witness is confirmed by the same site failing concretely)
+        ssites = set(r_[0] for r_ in A.reqs)
+        csites = set(r_[0] for r_ in AC.reqs)
+        if ssites != csites:
+            return "site mismatch: only symbolic %s / only concrete %s" % (sorted(ssites - csites)[:3], sorted(csites - ssites)[:3])
         # requirement truth values
         creq = {}
         for s_, ok, info in AC.reqs:
